@@ -49,7 +49,7 @@ class InstanceReport:
             self.inconclusive.append(f"path budget {max_paths} exhausted before all paths were visited")
 
     # ---- obligations
-    def prove(self, ctx, label, negated, witness=None, timeout_ms=None, key=None):
+    def prove(self, ctx, label, negated, witness=None, timeout_ms=None, key=None, real=False, samplers=None):
         """negated: z3 Bool (or list, OR-ed) whose unsatisfiability under the path condition is the
         obligation.  witness(model) -> replay spec (dict) or None.  Returns 'unsat'|'sat'|'unknown'."""
         if isinstance(negated, (list, tuple)):
@@ -70,7 +70,10 @@ class InstanceReport:
             spec = None
             if witness is not None:
                 try:
-                    spec = witness(m)
+                    env = real_witness(ctx, [negated], model=m, samplers=samplers) if real else None
+                    spec = witness(env if env is not None else m)
+                    if real and spec is not None:
+                        spec["real_witness"] = env is not None
                 except Exception as e:   # noqa
                     self.errors.append(f"{label}: witness construction failed: {type(e).__name__}: {e}")
             if spec is None:
@@ -144,10 +147,10 @@ def fl(x):
 
 
 def concretiser(m):
-    """x -> float: value of a Sym / number under model m with the true functions in place of the UFs
-    (inputs created as exp(u) are concretised as math.exp(model(u)), not as the model's own 'exp')."""
+    """x -> float: value of a Sym / number under model m (or an env dict) with the true functions in place
+    of the UFs (inputs created as exp(u) are concretised as math.exp(model(u)), not as the model's own 'exp')."""
     from .core import Sym, is_nan
-    env = DefaultEnv(env_from_model(m))
+    env = m if isinstance(m, dict) else DefaultEnv(env_from_model(m))
     cache = {}
 
     def val(x):
@@ -158,3 +161,71 @@ def concretiser(m):
         return fl(numeval(Sym.lift(x), env, cache=cache))
     val.env = env
     return val
+
+
+DEFAULT_SAMPLERS = [
+    ("ln_", lambda rnd: rnd.gauss(0.0, 0.8)),
+    ("taper", lambda rnd: rnd.random()),
+    ("n", lambda rnd: rnd.uniform(0.05, 4.0)),
+    ("f", lambda rnd: rnd.uniform(0.0, 6.0)),
+    ("", lambda rnd: rnd.gauss(0.0, 2.0)),
+]
+
+
+def real_witness(ctx, extra=(), tries=4000, seed=0, samplers=None, model=None):
+    """Concretisation across the uninterpreted-function gap: find values of the free constants at which
+    the path condition (+ extra, e.g. a negated obligation the solver found satisfiable) holds with the TRUE
+    exp/log/sqrt/hypot/sin/cos substituted for the uninterpreted symbols.  The solver's model is tried first,
+    then perturbations of it, then fresh samples.  Returns an env (dict) or None.  This is not the deciding
+    step (the solver's sat/unsat is); it only turns a candidate into inputs the real library can be run on."""
+    import random
+    from .core import free_vars
+    cons = list(ctx.pc) + list(ctx.assumptions) + list(extra)
+    names = set()
+    for c in cons:
+        free_vars(c, names)
+    names = sorted(names)
+    rnd = random.Random(seed)
+    samplers = (samplers or []) + DEFAULT_SAMPLERS
+
+    def holds(env):
+        try:
+            cache = {}
+            for c in cons:
+                if not numeval(c, env, cache=cache):
+                    return False
+            return True
+        except (CannotEvaluate, OverflowError, ValueError, ZeroDivisionError, TypeError):
+            return False
+
+    base = None
+    if model is not None:
+        base = env_from_model(model)
+        env = DefaultEnv(base)
+        if holds(env):
+            return env
+    bool_names = [n for n in names if base is not None and isinstance(base.get(n), bool)]
+
+    def draw(n):
+        for pre, f in samplers:
+            if n.startswith(pre):
+                return f(rnd)
+        return rnd.gauss(0, 1)
+
+    for t in range(tries):
+        env = {}
+        local = base is not None and t % 2 == 0
+        sig = 10 ** rnd.uniform(-3, 0.3)
+        for n in names:
+            if n in bool_names:
+                env[n] = base[n]
+            elif base is not None and isinstance(base.get(n), int) and not isinstance(base.get(n), bool):
+                env[n] = base[n]
+            elif local and isinstance(base.get(n), float):
+                env[n] = base[n] + rnd.gauss(0, sig) * max(1.0, abs(base[n]))
+            else:
+                env[n] = draw(n)
+        env = DefaultEnv(env)
+        if holds(env):
+            return env
+    return None
